@@ -172,6 +172,8 @@ class Mod:
                         c.methods[s2.name] = Func(self, c, s2)
             elif isinstance(st, ast.Assign) and len(st.targets) == 1 and isinstance(st.targets[0], ast.Name):
                 self.consts[st.targets[0].id] = st.value
+            elif isinstance(st, ast.AnnAssign) and isinstance(st.target, ast.Name) and st.value is not None:
+                self.consts[st.target.id] = st.value          # PLAYER_1: str = "Player 1"
             elif isinstance(st, ast.Assign):
                 # a = b = 0 chains
                 for t in st.targets:
